@@ -83,13 +83,17 @@ def sels_for(rng, gens):
 
 
 def det_history(rng):
-    """{1,2} -> {1} (2 retired, 1 moved) -> {1,3} -> a file that does not load -> {2}"""
-    a1, b2, c1, d3, e2 = (life_cfg(rng) for _ in range(5))
-    for cfg in (b2, e2):                               # generation 2 grants the randomised port
+    """{1,2} -> {1} (2 retired, 1 moved) -> {1,3} (3 added, 1 untouched) -> a file that does not load -> {2} (1 and 3 retired,
+    2 back on other subnets) -> {2} (same generations, other subnets, port flag withdrawn) -> the file is gone"""
+    a1, b2, c1, d3, e2, f2 = (life_cfg(rng) for _ in range(6))
+    for cfg in (b2, e2):                               # generation 2 grants the randomised port ...
         for g in cfg["groups"]:
             g["rp"] = True
+    for g in f2["groups"]:                             # ... until the last file withdraws it
+        g["rp"] = False
     files = [good_file({1: a1, 2: b2}), good_file({1: c1}), good_file({1: c1, 3: d3}),
-             bad_file(rng, {1: a1, 2: b2, 3: d3}, "syntax"), good_file({2: e2})]
+             bad_file(rng, {1: a1, 2: b2, 3: d3}, "syntax"), good_file({2: e2}), good_file({2: f2}),
+             bad_file(rng, {}, "missing")]
     return {"op": "life", "files": files, "sels": [sels_for(rng, [1, 2, 3]) for _ in files], "tag": "life-det"}
 
 
@@ -321,7 +325,8 @@ def evaluate(ctx, cases, sres, rres):
                 terms.append("{| l_f0 := lf_%d_0; l_loads := %s; l_seed := %s; l_gen := %s; l_lv := %s; l_fam := %s; l_obs := %s |}"
                              % (h, loads, hexs(s["seed"]), gN(s["gen"]), gN(s["lv"]), gN(fam),
                                 glist([g_obs(x) for x in (o_s["held"], o_s["fresh"], o_r["held"], o_r["fresh"])])))
-                tcases.append((c, i, k, o_s["held"]))
+                tcases.append((c, i, k, {kk: "station %s | fresh manager %s | registrar %s | fresh selector %s" % tuple(
+                    str(x[kk]) for x in (o_s["held"], o_s["fresh"], o_r["held"], o_r["fresh"])) for kk in ("out", "ip", "rp", "err")}))
                 if bd.get("seed") and bdf["out"] in b.OUT and s["lv"] == 4:
                     terms.append("{| l_f0 := lf_%d_0; l_loads := %s; l_seed := %s; l_gen := %s; l_lv := %s; l_fam := %s; l_obs := %s |}"
                                  % (h, loads, hexs(bytes.fromhex(bd["seed"])), gN(s["gen"]), gN(s["lv"]), gN(fam), glist([g_obs(bdf)])))
@@ -477,9 +482,9 @@ def api_evaluate(ctx, cases, results, h0=0):
             if o["k"] == "add":
                 u = ro["idx"]
                 hist(ctx, "api/add/%s" % ("as-asked" if u == o["igen"] else "next-free"))
-                if u in view:
-                    ctx.fail("api/add-reused-taken-generation", "op %d: AddGeneration(%d) used index %d, which is taken: the subnets "
-                             "configured for that generation were overwritten" % (j, o["igen"], u), bc)
+                if view.get(u) is not None:
+                    ctx.fail("api/add-overwrote-configured-generation", "op %d: AddGeneration(%d) used index %d, which is configured: "
+                             "the subnets configured for that generation were overwritten" % (j, o["igen"], u), bc)
                 view[u] = o["cfg"]
                 idxs.append(u)
                 gops.append("AAdd %s %s" % (gZ(o["igen"]), gent(o["cfg"])))
